@@ -98,7 +98,7 @@ CHECKS["C12"] = dict(
          "front end must accept exactly when one definition is visible under the rule, bind the reference to that definition's canonical "
          "name, and give every definition a unique canonical name that ir_util.find_object maps back to the defining node.",
     note="The solver decides only the feasibility of the choice paths; the verdict per combination is the oracle predicate over the choices "
-         "(same style as the module-level harnesses of C13/C14).  Outside: deeper nesting and longer paths than the templates, parameters, "
+         "(same style as the module-level harnesses of C13/C14).  Outside: deeper nesting and longer paths than the templates, "
          "$next, several imports.  The oracle is the rule as stated in the property text (the language reference does not spell it out).",
     design="DESIGN.md Build status (C12) and section 4",
 )
